@@ -706,7 +706,7 @@ def diff_run(iout, mout, cut=None):
     if len(a) != len(b):
         k = min(len(a), len(b))
         return {"at": k, "impl": a[k:k + 4], "model": b[k:k + 4], "len": [len(a), len(b)]}
-    for key in (() if late else ("C", "S", "tasks", "X")):
+    for key in (() if late else ("C", "S", "tasks", "X", "queue")):
         x, y = iout.get(key), mout.get(key)
         if key == "C":
             x, y = sorted(x), sorted(y)
@@ -806,9 +806,9 @@ def gen_machine(rng, opts):
             st["invoke"] = _invoke_block(rng, nm, names, opts)
         if opts.get("slow") and rng.random() < 0.15:
             st["exit"] = ["async:sleep:100"] + st["exit"]
-        if opts.get("slow") and rng.random() < 0.1 and i > 0:
-            # (not on the initial state: while `start()` sleeps inside an entry action the run loop is
-            #  already consuming events — a start/run-loop race outside C08/C09 and outside the model)
+        if opts.get("slow") and rng.random() < 0.1:
+            # (on the initial state too: `start()` creates the run loop only after the initial entry has settled,
+            #  so events arriving while it sleeps inside an entry action just wait in the queue)
             st["entry"] = ["async:sleep:100"] + st["entry"]
         if opts.get("rollback") and rng.random() < 0.25:
             # an action without implementation: the transition that runs it fails and is rolled back
@@ -1019,20 +1019,35 @@ class Timeline:
         return None
 
 
-def dead_pos(case, log, info=None):
-    """first log position from which the interpreter is known not to be running any more: an unhandled service
-    failure (`_fail`), `stop()`, or a `send` that reports another status. None: it ran to the end."""
+def _dead(case, log, info=None):
+    """(position, time) from which the interpreter is known not to be running any more: an unhandled service
+    failure (`_fail`), `stop()`, or a `send` that reports another status. (None, None): it ran to the end.
+    The position behind an unhandled failure is the one BEHIND the send of its error event; the time is that of the
+    failure itself (`_fail` runs right behind that send, in the same instant) — not the time of the record at that
+    position, which is simply the next record and may be much later: since the run loop re-checks the status behind
+    `queue.get()` a failed interpreter records nothing of its own any more, in particular no `#recv` of an event
+    that was queued in the instant of the failure."""
     info = info or static_info(case)
     unhandled = {iv["id"] for inf in info.values() for iv in inf["invoke"] if not iv["has_on_error"]}
     for p, (t, r) in enumerate(log):
         if r == "stop":
-            return p
+            return p, t
         if r.startswith("send:") and not r.endswith(":running"):
-            return p
+            return p, t
         if r.startswith("svc-end:") and r.endswith(":raise") and r[len("svc-end:"):-len(":raise")] in unhandled:
             if p + 1 < len(log) and log[p + 1][1].endswith(":running"):
-                return p + 2
-    return None
+                return p + 2, log[p + 1][0]
+    return None, None
+
+
+def dead_pos(case, log, info=None):
+    """first log position from which the interpreter is known not to be running any more (see `_dead`)"""
+    return _dead(case, log, info)[0]
+
+
+def dead_time(case, log, info=None):
+    """the virtual time from which the interpreter is known not to be running any more (see `_dead`)"""
+    return _dead(case, log, info)[1]
 
 
 def _pair_sends(log, typ):
@@ -1117,8 +1132,7 @@ def monitor_c08(case, out):
     if not slow and out.get("S") in ("running", "stopped") and not out.get("start_error"):
         end_t = case["horizon"] - CUT
         # from the first stop() / unhandled failure / refused send on, the interpreter is not running: no expiry is due
-        dp = dead_pos(case, log, tl.info)
-        dead_t = log[min(dp, len(log) - 1)][0] if dp is not None else None
+        dead_t = dead_time(case, log, tl.info)
         for sid, acts in tl.acts.items():
             for k, A in enumerate(acts):
                 ep, et, xp, xt = A["ep"], A["et"], A["xp"], A["xt"]
@@ -1223,8 +1237,6 @@ def monitor_c09(case, out):
             current = rp is not None and act_end is not None and tl.activation_at(sid, rp) == act_end
             if rp is not None and log[rp][0] > case["horizon"] - CUT:
                 continue
-            if rp is not None and dead is not None and rp >= dead:
-                continue               # the machine had failed / stopped before this event was taken up
             # (only decidable from the log when no OTHER completion of that type is still queued: the next receipt
             #  of that type is then certainly this one)
             sends_before = sum(1 for p in range(endpos) if log[p][1] == f"send:{typ}:running")
@@ -1253,8 +1265,9 @@ def monitor_c09(case, out):
                         elif out.get("error") != "SvcRaises":
                             probs.append({"kind": "unhandled-error-not-recorded", "detail": f"{iid} raised at t={t}; interpreter.error={out.get('error')!r}", "id": iid})
                     break
-    # once an unhandled failure has put the interpreter into the error status, no user action runs any more
-    # (an event taken up afterwards is received, nothing else)
+    # once an unhandled failure has put the interpreter into the error status, no user action runs any more (the
+    # macrostep in flight may finish) and NO event is taken up any more: the run loop re-checks the status behind
+    # `queue.get()`, so an event that was already queued when the interpreter failed is not even received
     if dead is not None and stop_pos is None or (dead is not None and stop_pos is not None and dead < stop_pos):
         for p in range(dead, len(log)):
             r = log[p][1]
@@ -1263,6 +1276,10 @@ def monitor_c09(case, out):
                 if rcv is not None and rcv >= dead:
                     probs.append({"kind": "action-after-failure", "detail": f"{r} at t={log[p][0]} ran although the interpreter had failed / finished at record #{dead}"})
                     break
+        for p in range(dead, len(log)):
+            if log[p][1].startswith("#recv:"):
+                probs.append({"kind": "event-after-failure", "detail": f"{log[p][1]} at t={log[p][0]}: an event was taken up although the interpreter had failed / finished at record #{dead}"})
+                break
     # data carried by completion events, declared input
     for (name, typ, data) in out.get("datalog", []):
         iid = typ.split(".", 2)[2]
